@@ -3,7 +3,7 @@ import AmcVerif.Model.Vec
 /-! Container-level representation: `VRepW cfg Ok c m xs w` says that pool container `c` of memory `m`, with size/capacity/
 pointer words `w`, holds exactly the elements `xs` at the start of its buffer and nothing else (all other slots raw);
 `SizeLaws` is the flavour-independent part of the laws of the generated size members, `GrowSpec` what a flavour's `grow`
-guarantees, `FrameG` what an operation on container `c` leaves alone; `StrongPost` / `BasicPost` are the outcome shapes
+guarantees, `FrameG` what an operation on container `c` leaves alone, `NoLeak` that it leaves no heap block behind (`FrameL` = both); `StrongPost` / `BasicPost` are the outcome shapes
 of the public operations (strong / basic exception guarantee, never a lifetime fault). -/
 namespace AmcVerif
 variable {α β γ : Type}
@@ -269,6 +269,105 @@ structure FrameG (c : Nat) (r : Region) (m m' : Mem α) : Prop where
 theorem FrameG.refl (c : Nat) (r : Region) (m : Mem α) : FrameG c r m m :=
   ⟨rfl, rfl, rfl, fun _ _ => rfl, Nat.le_refl _, id, fun _ _ _ => rfl⟩
 
+theorem View.set_isSome (v : View α) (r : Region) (b : List (Slot α)) (h : (v r).isSome) (r' : Region) :
+    ((v.set r b) r').isSome = (v r').isSome := by
+  by_cases hr : r' = r
+  · subst hr; simp [h]
+  · rw [View.set_other _ _ _ _ hr]
+
+/- leak freedom ------------------------------------------------------------------------------------------ -/
+
+/-- container `c` owns heap block `id` in memory `m`: its words point to that block and its capacity is not 0 (a container
+    of capacity 0 has no storage: the null pointer of an `amc::vector` resolves to block 0 without owning it) -/
+def OwnsBlk (cfg : Cfg) (c : Nat) (m : Mem α) (id : Nat) : Prop :=
+  ∃ w, m.ws[c]? = some w ∧ regionOf cfg c w = .blk id ∧ 0 < cfg.ops.capacity w
+
+/-- no heap block is leaked (or stolen) by a step from `m` to `m'` on container `c`: every heap block that exists in `m'`
+    is a block of somebody else that already existed (and still is not `c`'s), or the block `c` owned before and still owns,
+    or a freshly allocated block that `c` owns now. In particular: the set of existing blocks is the old set, minus the old
+    block of `c` if `c` moved to another block, plus the new block of `c` — nothing else. -/
+def NoLeak (cfg : Cfg) (c : Nat) (m m' : Mem α) : Prop :=
+  ∀ id, (m'.buf (.blk id)).isSome →
+    ((m.buf (.blk id)).isSome ∧ ¬ OwnsBlk cfg c m id ∧ ¬ OwnsBlk cfg c m' id)
+    ∨ ((m.buf (.blk id)).isSome ∧ OwnsBlk cfg c m id ∧ OwnsBlk cfg c m' id)
+    ∨ (m.nextId ≤ id ∧ OwnsBlk cfg c m' id)
+
+theorem OwnsBlk.congr {cfg : Cfg} {c : Nat} {m m' : Mem α} (h : m'.ws[c]? = m.ws[c]?) (id : Nat) :
+    OwnsBlk cfg c m' id ↔ OwnsBlk cfg c m id := by
+  unfold OwnsBlk; rw [h]
+
+/-- what a container with words `w` owns -/
+theorem OwnsBlk.iff {cfg : Cfg} {c : Nat} {m : Mem α} {w : VB} (h : m.ws[c]? = some w) (id : Nat) :
+    OwnsBlk cfg c m id ↔ (regionOf cfg c w = .blk id ∧ 0 < cfg.ops.capacity w) := by
+  constructor
+  · rintro ⟨w', hw', hr, hc⟩
+    rw [h] at hw'; injection hw' with hw'; subst hw'
+    exact ⟨hr, hc⟩
+  · rintro ⟨hr, hc⟩; exact ⟨w, h, hr, hc⟩
+
+theorem NoLeak.refl (cfg : Cfg) (c : Nat) (m : Mem α) : NoLeak cfg c m m := by
+  intro id hid
+  by_cases ho : OwnsBlk cfg c m id
+  · exact Or.inr (Or.inl ⟨hid, ho, ho⟩)
+  · exact Or.inl ⟨hid, ho, ho⟩
+
+/-- a further step that creates no block and does not change what `c` owns -/
+theorem NoLeak.step {cfg : Cfg} {c : Nat} {m m1 m2 : Mem α} (h : NoLeak cfg c m m1)
+    (hbuf : ∀ id, (m2.buf (.blk id)).isSome → (m1.buf (.blk id)).isSome)
+    (hown : ∀ id, OwnsBlk cfg c m2 id ↔ OwnsBlk cfg c m1 id) : NoLeak cfg c m m2 := by
+  intro id hid
+  rcases h id (hbuf id hid) with ⟨h1, h2, h3⟩ | ⟨h1, h2, h3⟩ | ⟨h1, h3⟩
+  · exact Or.inl ⟨h1, h2, fun ho => h3 ((hown id).mp ho)⟩
+  · exact Or.inr (Or.inl ⟨h1, h2, (hown id).mpr h3⟩)
+  · exact Or.inr (Or.inr ⟨h1, (hown id).mpr h3⟩)
+
+/-- composition through an intermediate memory -/
+theorem NoLeak.trans {cfg : Cfg} {c : Nat} {m m1 m2 : Mem α} (h1 : NoLeak cfg c m m1) (h2 : NoLeak cfg c m1 m2)
+    (hn : m.nextId ≤ m1.nextId) : NoLeak cfg c m m2 := by
+  intro id hid
+  rcases h2 id hid with ⟨e1, n1, n2⟩ | ⟨e1, o1, o2⟩ | ⟨f1, o2⟩
+  · rcases h1 id e1 with ⟨e0, n0, _⟩ | ⟨_, _, o1⟩ | ⟨_, o1⟩
+    · exact Or.inl ⟨e0, n0, n2⟩
+    · exact absurd o1 n1
+    · exact absurd o1 n1
+  · rcases h1 id e1 with ⟨_, _, n1⟩ | ⟨e0, o0, _⟩ | ⟨f0, _⟩
+    · exact absurd o1 n1
+    · exact Or.inr (Or.inl ⟨e0, o0, o2⟩)
+    · exact Or.inr (Or.inr ⟨f0, o2⟩)
+  · exact Or.inr (Or.inr ⟨Nat.le_trans hn f1, o2⟩)
+
+/-- the three kinds of steps the operation proofs are made of: an element-level update of an existing region … -/
+theorem NoLeak.ofSet {cfg : Cfg} {c : Nat} {m m' : Mem α} {r : Region} {b : List (Slot α)}
+    (hb : m'.buf = View.set m.buf r b) (hr : (m.buf r).isSome) (hk : Keep m m') : NoLeak cfg c m m' :=
+  (NoLeak.refl cfg c m).step (fun id hid => by rw [hb, View.set_isSome _ _ _ hr] at hid; exact hid)
+    (OwnsBlk.congr (by rw [hk.ws]))
+
+/-- … a step that changes neither the view nor the words … -/
+theorem NoLeak.ofSame {cfg : Cfg} {c : Nat} {m m' : Mem α} (hs : Same m m') : NoLeak cfg c m m' :=
+  (NoLeak.refl cfg c m).step (fun id hid => by rw [hs.1] at hid; exact hid) (OwnsBlk.congr (by rw [hs.2.ws]))
+
+theorem OwnsBlk.withWs {cfg : Cfg} {c : Nat} {m : Mem α} {w w' : VB} (hws : m.ws[c]? = some w)
+    (hbeg : cfg.ops.begin w' = cfg.ops.begin w) (hcap : cfg.ops.capacity w' = cfg.ops.capacity w) (id : Nat) :
+    OwnsBlk cfg c ({ m with ws := m.ws.set c w' } : Mem α) id ↔ OwnsBlk cfg c m id := by
+  have hc : c < m.ws.length := by
+    rcases Nat.lt_or_ge c m.ws.length with h1 | h1
+    · exact h1
+    · simp [List.getElem?_eq_none h1] at hws
+  rw [OwnsBlk.iff (w := w') (by simp [hc]), OwnsBlk.iff hws, regionOf_congr cfg c w w' hbeg, hcap]
+
+/-- … and new words for container `c` with the same buffer pointer and capacity -/
+theorem NoLeak.withWs {cfg : Cfg} {c : Nat} {m : Mem α} {w w' : VB} (hws : m.ws[c]? = some w)
+    (hbeg : cfg.ops.begin w' = cfg.ops.begin w) (hcap : cfg.ops.capacity w' = cfg.ops.capacity w) :
+    NoLeak cfg c m ({ m with ws := m.ws.set c w' } : Mem α) :=
+  (NoLeak.refl cfg c m).step (fun id hid => by rw [withWs_buf] at hid; exact hid) (OwnsBlk.withWs hws hbeg hcap)
+
+/-- `FrameG` together with leak freedom: what an operation on container `c` leaves alone, and no heap block is left behind -/
+structure FrameL (cfg : Cfg) (c : Nat) (r : Region) (m m' : Mem α) : Prop extends FrameG c r m m' where
+  noLeak : NoLeak cfg c m m'
+
+theorem FrameL.refl (cfg : Cfg) (c : Nat) (r : Region) (m : Mem α) : FrameL cfg c r m m :=
+  ⟨FrameG.refl c r m, NoLeak.refl cfg c m⟩
+
 /-- container `c`, which held `xs` in words `w`, now holds `xs` in words `w'` with room for `needed` elements, in the same
     region or in a fresh block -/
 structure Grown (cfg : Cfg) (Ok : VB → Prop) (c : Nat) (m m' : Mem α) (xs : List α) (w w' : VB) (needed : Nat) : Prop where
@@ -283,7 +382,7 @@ def GrowPost (cfg : Cfg) (Ok : VB → Prop) (c : Nat) (m : Mem α) (xs : List α
     Except Stop Unit → Mem α → Prop :=
   fun res m' =>
     ((res = .ok () ∧ ∃ w', Grown cfg Ok c m m' xs w w' needed) ∨
-     (∃ e, res = .error (.exc e) ∧ VRepW cfg Ok c m' xs w ∧ m'.buf = m.buf)) ∧ FrameG c (regionOf cfg c w) m m'
+     (∃ e, res = .error (.exc e) ∧ VRepW cfg Ok c m' xs w ∧ m'.buf = m.buf)) ∧ FrameL cfg c (regionOf cfg c w) m m'
 
 /-- what the flavour's `grow` guarantees (proved per flavour; vacuous for FixedCapacityVector, which never grows) -/
 def GrowSpec (α : Type) (cfg : Cfg) (Ok : VB → Prop) : Prop :=
@@ -300,7 +399,7 @@ structure VecLaws (α : Type) (cfg : Cfg) (Ok : VB → Prop) : Prop where
 
 theorem GrowPost.stay {cfg : Cfg} {Ok : VB → Prop} {c : Nat} {m : Mem α} {xs : List α} {w : VB} {needed : Nat}
     (h : VRepW cfg Ok c m xs w) (hroom : needed ≤ cfg.ops.capacity w) : GrowPost cfg Ok c m xs w needed (.ok ()) m :=
-  ⟨Or.inl ⟨rfl, w, ⟨h, hroom, Or.inl rfl⟩⟩, FrameG.refl _ _ _⟩
+  ⟨Or.inl ⟨rfl, w, ⟨h, hroom, Or.inl rfl⟩⟩, FrameL.refl _ _ _ _⟩
 
 /-- `adjustCapacity(needed)`: room afterwards, or an exception and nothing changed -/
 theorem adjustCapacity_post {cfg : Cfg} {Ok : VB → Prop} (L : VecLaws α cfg Ok) (m : Mem α) (c : Nat) (xs : List α) (w : VB)
@@ -321,7 +420,7 @@ theorem adjustCapacity_post {cfg : Cfg} {Ok : VB → Prop} (L : VecLaws α cfg O
       refine Post.bind (vcap_post cfg m c w h.ws) ?_ (by okerr)
       rintro k m1 ⟨hk, rfl⟩; injection hk with hk; subst hk
       rw [L.size.checkErr _ _ (by omega)]
-      exact ⟨Or.inr ⟨_, rfl, h, rfl⟩, FrameG.refl _ _ _⟩
+      exact ⟨Or.inr ⟨_, rfl, h, rfl⟩, FrameL.refl _ _ _ _⟩
 
 end AmcVerif
 
@@ -354,11 +453,11 @@ theorem adjustCapacityRef_post {cfg : Cfg} {Ok : VB → Prop} (L : VecLaws α cf
     (needed : Nat) (ref : Ref α) (v : α) (h : VRepW cfg Ok c m xs w) (hf : Fresh m) (hv : RefOK cfg c m w xs ref v) :
     Post (adjustCapacityRef cfg c needed ref) m (fun res m' =>
       ((∃ ref', res = .ok ref' ∧ ∃ w', Grown cfg Ok c m m' xs w w' needed ∧ RefOK cfg c m' w' xs ref' v) ∨
-       (∃ e, res = .error (.exc e) ∧ VRepW cfg Ok c m' xs w ∧ m'.buf = m.buf)) ∧ FrameG c (regionOf cfg c w) m m') := by
+       (∃ e, res = .error (.exc e) ∧ VRepW cfg Ok c m' xs w ∧ m'.buf = m.buf)) ∧ FrameL cfg c (regionOf cfg c w) m m') := by
   by_cases hroom : needed ≤ cfg.ops.capacity w
   · refine Post.mono (adjustCapacityRef_room cfg Ok L.size m c w needed ref h.ws hroom) ?_
     rintro res m' ⟨hr, rfl⟩; subst hr
-    exact ⟨Or.inl ⟨ref, rfl, w, ⟨h, hroom, Or.inl rfl⟩, hv⟩, FrameG.refl _ _ _⟩
+    exact ⟨Or.inl ⟨ref, rfl, w, ⟨h, hroom, Or.inl rfl⟩, hv⟩, FrameL.refl _ _ _ _⟩
   · unfold adjustCapacityRef
     by_cases hd : cfg.dynamic = true
     · rw [if_pos hd]
@@ -414,7 +513,7 @@ theorem adjustCapacityRef_post {cfg : Cfg} {Ok : VB → Prop} (L : VecLaws α cf
       · rintro _ m1 ⟨he, _⟩; cases he
       · rintro e m1 ⟨he, rfl⟩
         injection he with he; subst he
-        exact ⟨Or.inr ⟨_, rfl, h, rfl⟩, FrameG.refl _ _ _⟩
+        exact ⟨Or.inr ⟨_, rfl, h, rfl⟩, FrameL.refl _ _ _ _⟩
 end AmcVerif
 
 namespace AmcVerif
@@ -423,12 +522,6 @@ variable {α β γ : Type}
 theorem VRepW.ofSame {cfg : Cfg} {Ok : VB → Prop} {c : Nat} {m m' : Mem α} {xs : List α} {w : VB}
     (h : VRepW cfg Ok c m xs w) (hs : Same m m') : VRepW cfg Ok c m' xs w :=
   ⟨h.store.same hs, h.size⟩
-
-theorem View.set_isSome (v : View α) (r : Region) (b : List (Slot α)) (h : (v r).isSome) (r' : Region) :
-    ((v.set r b) r').isSome = (v r').isSome := by
-  by_cases hr : r' = r
-  · subst hr; simp [h]
-  · rw [View.set_other _ _ _ _ hr]
 
 theorem Fresh.ofSet {m m' : Mem α} {r : Region} {b : List (Slot α)} (hf : Fresh m) (hn : m'.nextId = m.nextId)
     (hb : m'.buf = View.set m.buf r b) (hr : (m.buf r).isSome) : Fresh m' := by
@@ -470,17 +563,35 @@ theorem FrameG.withWs {c : Nat} {r0 : Region} {m m1 : Mem α} (h : FrameG c r0 m
       exact h.fresh hf id hid,
     fun r' hne hold => by rw [withWs_buf]; exact h.bufOther r' hne hold⟩
 
+/-- an element-level effect on the (possibly fresh) region of container `c`, after a framed, leak-free prefix -/
+theorem FrameL.elem {cfg : Cfg} {c : Nat} {r0 r1 : Region} {m m1 m2 : Mem α} {b : List (Slot α)} (h : FrameL cfg c r0 m m1)
+    (hreg : r1 = r0 ∨ ∃ id, r1 = .blk id ∧ m.nextId ≤ id) (hsome : (m1.buf r1).isSome)
+    (hb : m2.buf = View.set m1.buf r1 b) (hk : Keep m1 m2) : FrameL cfg c r0 m m2 :=
+  ⟨h.toFrameG.elem hreg hsome hb hk,
+   h.noLeak.step (fun id hid => by rw [hb, View.set_isSome _ _ _ hsome] at hid; exact hid) (OwnsBlk.congr (by rw [hk.ws]))⟩
+
+theorem FrameL.same {cfg : Cfg} {c : Nat} {r0 : Region} {m m1 m2 : Mem α} (h : FrameL cfg c r0 m m1) (hs : Same m1 m2) :
+    FrameL cfg c r0 m m2 :=
+  ⟨h.toFrameG.same hs, h.noLeak.step (fun id hid => by rw [hs.1] at hid; exact hid) (OwnsBlk.congr (by rw [hs.2.ws]))⟩
+
+/-- new words `w'` for container `c` (which has words `w1`) with the same buffer pointer and the same capacity -/
+theorem FrameL.withWs {cfg : Cfg} {c : Nat} {r0 : Region} {m m1 : Mem α} (h : FrameL cfg c r0 m m1) {w1 : VB} (w' : VB)
+    (hws : m1.ws[c]? = some w1) (hbeg : cfg.ops.begin w' = cfg.ops.begin w1)
+    (hcap : cfg.ops.capacity w' = cfg.ops.capacity w1) :
+    FrameL cfg c r0 m ({ m1 with ws := m1.ws.set c w' } : Mem α) :=
+  ⟨h.toFrameG.withWs w', h.noLeak.step (fun id hid => by rw [withWs_buf] at hid; exact hid) (OwnsBlk.withWs hws hbeg hcap)⟩
+
 /-- strong guarantee: the operation succeeds with `xs'`, or throws and the container still holds `xs` -/
 def StrongPost (cfg : Cfg) (Ok : VB → Prop) (c : Nat) (m : Mem α) (w : VB) (xs xs' : List α) (okv : β) :
     Except Stop β → Mem α → Prop :=
   fun res m' => ((res = .ok okv ∧ VRep cfg Ok c m' xs') ∨ (∃ e, res = .error (.exc e) ∧ VRep cfg Ok c m' xs))
-    ∧ FrameG c (regionOf cfg c w) m m'
+    ∧ FrameL cfg c (regionOf cfg c w) m m'
 
 /-- basic guarantee: the operation succeeds with `xs'`, or throws and the container holds some valid sequence -/
 def BasicPost (cfg : Cfg) (Ok : VB → Prop) (c : Nat) (m : Mem α) (w : VB) (xs' : List α) (okv : β) :
     Except Stop β → Mem α → Prop :=
   fun res m' => ((res = .ok okv ∧ VRep cfg Ok c m' xs') ∨ (∃ e xs'', res = .error (.exc e) ∧ VRep cfg Ok c m' xs''))
-    ∧ FrameG c (regionOf cfg c w) m m'
+    ∧ FrameL cfg c (regionOf cfg c w) m m'
 
 theorem lives_snoc (xs : List α) (v : α) (rest : List (Slot α)) : lives xs ++ .live v :: rest = lives (xs ++ [v]) ++ rest := by
   simp [lives]
@@ -528,7 +639,7 @@ theorem pushBackCopy_post {cfg : Cfg} {Ok : VB → Prop} (L : VecLaws α cfg Ok)
           have hst3 := hw'.store.set hb3 (by simp; omega) hk3
           refine ⟨Or.inl ⟨hr4, _, VRepW.commit (xs' := xs ++ [v]) (by simpa using hst3) hl.1 hl.2.2.2 hl.2.2.1
             (by rw [hl.2.1, hw'.size]; simp)⟩, ?_⟩
-          exact (hfr.elem hreg (hw'.isSome (by omega)) hb3 hk3).withWs _
+          exact (hfr.elem hreg (hw'.isSome (by omega)) hb3 hk3).withWs _ hws3 hl.2.2.2 hl.2.2.1
         · cases he
       · rintro e m3 hq3
         rcases hq3 with ⟨he, _⟩ | ⟨he, hs3⟩
